@@ -15,7 +15,8 @@
 // validity verdicts of every input file (as stored / file and batch options removed / all options
 // removed; exact for the variants whose damage the model sees), and for every output file routing pair,
 // header id, option value, file control, per batch number, header id, option value, control record,
-// (entry id, trace number after Create), and the verdict of File.Validate() under the carried options.
+// (entry id, trace number after Create), the verdict of File.Validate() under the carried options and
+// (model-visible variants) of the same file with every option taken away.
 //
 // rev: a file of forward PPD / CCD / CTX / WEB batches damaged by one variant; File.Reversal; compared:
 // option values of file, batches and entry records, date / time, file control, per batch numbers of header
@@ -374,6 +375,7 @@ type mergeRun struct {
 	fails              []failure
 	label              string
 	skipped            string
+	notes              []string // replay only: what Validate() said
 }
 
 func runMerge(c spec) (res mergeRun) {
@@ -483,9 +485,20 @@ func runMerge(c spec) (res mergeRun) {
 			add("merge:opts5:output-invalid", fmt.Sprintf("a merged file (MaxLines %d, MaxDollarAmount %d, variant %s) fails Validate() under the options it carries: %v",
 				cond.MaxLines, cond.MaxDollarAmount, label, verr))
 		}
+		// the same file with every option taken away (model-visible variants only)
+		stripped := "?"
+		if vis {
+			c := cloneKeep(o)
+			gen.ApplyOptsDeep(c, nil)
+			var serr error
+			if p := guard(func() { serr = gen.ValidAll(c) }); p != nil {
+				serr = fmt.Errorf("panic: %v", p)
+			}
+			stripped = strconv.Itoa(b2i(serr == nil))
+		}
 		fc := o.Control
-		fmt.Fprintf(&il, " F %s %s %d %s V%d %d %d %d %d %d %d", hx.Enc(o.Header.ImmediateOrigin), hx.Enc(o.Header.ImmediateDestination),
-			fin.of(fileRest(&o.Header)), token(o.GetValidation()), b2i(verr == nil),
+		fmt.Fprintf(&il, " F %s %s %d %s V%dS%s %d %d %d %d %d %d", hx.Enc(o.Header.ImmediateOrigin), hx.Enc(o.Header.ImmediateDestination),
+			fin.of(fileRest(&o.Header)), token(o.GetValidation()), b2i(verr == nil), stripped,
 			fc.BatchCount, fc.EntryAddendaCount, fc.EntryHash, fc.TotalDebitEntryDollarAmountInFile, fc.TotalCreditEntryDollarAmountInFile,
 			len(o.Batches))
 		for _, b := range o.Batches {
@@ -523,6 +536,17 @@ func revInput(r *rng.R) (*ach.File, string) {
 		return g, v.Name
 	}
 	return nil, v.Name
+}
+
+func allPositive(g *ach.File) bool {
+	for _, b := range g.Batches {
+		for _, e := range b.GetEntries() {
+			if e.Amount <= 0 {
+				return false
+			}
+		}
+	}
+	return true
 }
 
 func revDumpIn(f *ach.File, cl *strings.Builder) bool {
@@ -576,10 +600,15 @@ func runRev(c spec) (res mergeRun) {
 	res.label = variant
 	when := time.Date(2024, 3, 4, 10, 30, 0, 0, time.UTC)
 	when2 := time.Date(2024, 3, 5, 11, 45, 0, 0, time.UTC)
-	reversible := optsdom.Reversible(g) && visible[variant]
+	// V is compared whenever the variant's damage is visible to the validator model and no entry has a zero
+	// amount (the amount rule of ValidAmountForCodes is SEC level, outside the model: a zero amount under a
+	// PRENOTE description or a prenote code is the territory of the known finding of C13); the oracle
+	// statements (success, validity) are owed by reversible files only
+	compareV := visible[variant] && allPositive(g)
+	reversible := optsdom.Reversible(g) && compareV
 	var cl strings.Builder
 	fmt.Fprintf(&cl, "%s %s %s %s %d", hx.Enc(when.Format("060102")), hx.Enc(when.Format("1504")),
-		hx.Enc(when2.Format("060102")), hx.Enc(when2.Format("1504")), b2i(reversible))
+		hx.Enc(when2.Format("060102")), hx.Enc(when2.Format("1504")), b2i(compareV))
 	if !revDumpIn(g, &cl) {
 		return mergeRun{skipped: "batch-without-control"}
 	}
@@ -605,9 +634,12 @@ func runRev(c spec) (res mergeRun) {
 	il.WriteString("OK")
 	revDumpOut(x, &il)
 	v1 := gen.ValidAll(x)
-	if reversible {
+	if v1 != nil {
+		res.notes = append(res.notes, "Validate() of the reversal: "+v1.Error())
+	}
+	if compareV {
 		fmt.Fprintf(&il, " V%d", b2i(v1 == nil))
-		if v1 != nil {
+		if v1 != nil && reversible {
 			add("reversal:opts5:output-invalid", "the reversal of a reversible file ("+variant+") fails Validate() under its unchanged options: "+v1.Error())
 		}
 	} else {
@@ -643,8 +675,12 @@ func runRev(c spec) (res mergeRun) {
 	il.WriteString(" | OK")
 	revDumpOut(x, &il)
 	v2 := gen.ValidAll(x)
-	if reversible {
+	if compareV {
 		fmt.Fprintf(&il, " V%d", b2i(v2 == nil))
+	} else {
+		il.WriteString(" V-")
+	}
+	if reversible {
 		if v2 != nil {
 			add("reversal:opts5:twice-invalid", "after two reversals the file fails Validate() under its options: "+v2.Error())
 		}
@@ -656,8 +692,6 @@ func runRev(c spec) (res mergeRun) {
 				}
 			}
 		}
-	} else {
-		il.WriteString(" V-")
 	}
 	res.implLine = il.String()
 	return
@@ -842,6 +876,9 @@ func replay(args []string) {
 	}
 	fmt.Println("model input :", res.caseLine)
 	fmt.Println("observation :", res.implLine)
+	for _, n := range res.notes {
+		fmt.Println("note        :", n)
+	}
 	if len(res.fails) == 0 {
 		fmt.Println("the oracle statements hold on this input (a correspondence mismatch shows as a difference between the model's line and the observation)")
 		return
